@@ -11,7 +11,7 @@ if [ "${1:-}" = "--clean" ]; then
   rm -rf $ISO; exit 0
 fi
 D="$1"; P="$2"; TIER="${3:-quick}"
-HEAD=$(git -C /repo rev-parse HEAD)
+HEAD=${ISO_REV:-$(git -C /repo rev-parse HEAD)}
 mkdir -p $ISO
 if [ ! -d $ISO/repo ]; then git -C /repo worktree add --detach $ISO/repo "$HEAD" >/dev/null 2>&1 || exit 2; fi
 git -C $ISO/repo checkout -q -- . ; git -C $ISO/repo checkout -q --detach "$HEAD" || exit 2
